@@ -218,7 +218,7 @@ func Value() *rapid.Generator[string] {
 	return rapid.Custom(func(t *rapid.T) string {
 		switch rapid.IntRange(0, 9).Draw(t, "vkind") {
 		case 0, 1, 2, 3, 4, 5:
-			return rapid.SampledFrom([]string{"0", "1", "2", "3", "x", "y", "", "foo", "bar"}).Draw(t, "v")
+			return rapid.SampledFrom([]string{"0", "1", "2", "3", "x", "y", "", "foo", "bar", "1x", "b", "bx"}).Draw(t, "v")
 		case 6, 7:
 			return rapid.SampledFrom(hostile).Draw(t, "hv")
 		case 8:
@@ -229,7 +229,7 @@ func Value() *rapid.Generator[string] {
 	})
 }
 
-var identCols = []string{"a", "b", "c", "d", "e", "f", "g"}
+var identCols = []string{"a", "b", "c", "d", "e", "f", "g", "count", "a1", "ab"}
 
 var hostileCols = []string{"", " ", "A", "a b", "é", "\xff", "\"", "\n", "count", "a=", "a,b", "$1", "日本", "a\xffb"}
 
@@ -301,6 +301,22 @@ func Explicit(t *rapid.T, o DataOpts) *DataSpec {
 			row[c] = Value().Draw(t, "val")
 		}
 		rows = append(rows, row)
+	}
+	// concatenation collisions: two (column,value) pairs whose plain
+	// concatenation is equal, e.g. ("ip","6to4") and ("ip6","to4") - a key or
+	// memo built from column+value without a separator confuses them
+	if len(cols) > 0 && rapid.IntRange(0, 3).Draw(t, "collide") == 0 {
+		base := cols[rapid.IntRange(0, len(cols)-1).Draw(t, "collcol")]
+		w := rapid.SampledFrom([]string{"1x", "x1y", "ab", "6to4", "a1", "count", "b0b"}).Draw(t, "collword")
+		k := rapid.IntRange(1, len(w)-1).Draw(t, "collsplit")
+		n1 := rapid.IntRange(1, 3).Draw(t, "colln1")
+		n2 := rapid.IntRange(1, 3).Draw(t, "colln2")
+		for i := 0; i < n1; i++ {
+			rows = append(rows, model.Row{base: w})
+		}
+		for i := 0; i < n2; i++ {
+			rows = append(rows, model.Row{base + w[:k]: w[k:], base: "other"})
+		}
 	}
 	if rapid.IntRange(0, 4).Draw(t, "trail") == 0 {
 		k := rapid.IntRange(1, 3).Draw(t, "ntrail")
